@@ -462,100 +462,103 @@ Section Scanner.
   Definition op2 (t0 t1 : tok) (s : st) : outcome (tok * st) :=   (* switch2 *)
     if ch s =? 61 then s1 <- next s ;; Ok (t1, s1) else Ok (t0, s).
 
-  (* Scan, scanAttribute and scanAttributeTokens are mutually recursive: one fuel. *)
-  Fixpoint scan (f : nat) (s : st) : outcome (res * st) :=
-    match f with
-    | O => Fuel
-    | S f' =>
+  (* Scan, scanAttribute and scanAttributeTokens are mutually recursive (one fuel).
+     Their bodies are written once, with the recursive calls as parameters:
+     [scan_rec] = s.Scan(), [attr_rec close] = s.scanAttributeTokens(close). *)
+  (* the `default:` branch of Scan's outer switch (also reached by fallthrough from the
+     identifier case with quote.numHash = 1); [offset] is the token start, [c] the
+     current rune, [nh] = quote.numHash *)
+  Definition default_case (scan_rec : st -> outcome (res * st)) (attr_rec : tok -> st -> outcome st)
+             (offset nh c : Z) (sd : st) : outcome (res * st) :=
+    s1 <- next sd ;;      (* always make progress *)
+    let simple (t : tok) (ie : bool) := finish t offset ie s1 in
+    let quoted (c nh : Z) (s2 : st) :=
+      '(t, s3) <- scan_quoted c nh s2 ;; finish t offset true s3 in
+    if c =? -1 then
+      if ins s1 then Ok (mkRes COMMA offset true, set_ins s1 false)
+      else simple EOF false
+    else if c =? 95 then                                               (* '_' *)
+      b <- (if ch s1 =? 124 then
+              if rd s1 <? len then x <- byte_at (rd s1) ;; Ok (x =? 95) else Ok false
+            else Ok false) ;;
+      if b then s2 <- next s1 ;; s3 <- next s2 ;; finish BOTTOM offset true s3
+      else
+        '(lit, s2) <- scan_field_identifier s1 ;;
+        if bytes_eqb lit [95%N] && (ch s2 =? 35) then
+          s3 <- next s2 ;;
+          '(_, s4) <- scan_identifier s3 ;;
+          finish ILLEGAL offset true (errf s4)
+        else finish IDENT offset true s2
+    else if c =? 10 then                                               (* '\n' *)
+      s2 <- skip_ws lf (set_ins s1 false) ;;
+      if (ch s2 =? 44) || (ch s2 =? 58) then scan_rec s2                  (* return s.Scan() *)
+      else Ok (mkRes COMMA offset true, s2)
+    else if c =? 35 then                                               (* '#' *)
+      '(nh', s2) <- hash_loop lf (nh + 1) s1 ;;
+      let c' := ch s2 in
+      if negb (c' =? 39) && negb (c' =? 34) then finish ILLEGAL offset false s2
+      else s3 <- next s2 ;; quoted c' nh' s3
+    else if (c =? 34) || (c =? 39) then quoted c nh s1
+    else if c =? 64 then                                               (* '@': scanAttribute *)
+      let offs := off s1 - 1 in
+      '(_, s2) <- scan_identifier s1 ;;
+      '(r, s3) <- scan_rec s2 ;;
+      s4 <- (if tok_beq (r_tok r) LPAREN then attr_rec RPAREN s3 else Ok (errf s3)) ;;
+      _ <- slice offs (off s4) ;;
+      finish ATTRIBUTE offset true s4
+    else if c =? 58 then simple COLON false
+    else if c =? 59 then simple SEMICOLON true
+    else if c =? 63 then simple OPTION true
+    else if c =? 126 then simple TILDE false
+    else if c =? 46 then                                               (* '.' *)
+      if (48 <=? ch s1) && (ch s1 <=? 57) then
+        '(t, s2) <- scan_number true s1 ;; finish t offset true s2
+      else if ch s1 =? 46 then
+        s2 <- next s1 ;;
+        if ch s2 =? 46 then s3 <- next s2 ;; finish ELLIPSIS offset true s3
+        else finish ILLEGAL offset false (errf s2)
+      else simple PERIOD false
+    else if c =? 44 then simple COMMA false
+    else if c =? 40 then simple LPAREN false
+    else if c =? 41 then simple RPAREN true
+    else if c =? 91 then simple LBRACK false
+    else if c =? 93 then simple RBRACK true
+    else if c =? 123 then simple LBRACE false
+    else if c =? 125 then simple RBRACE true
+    else if c =? 43 then simple ADD false
+    else if c =? 45 then simple SUB false
+    else if c =? 42 then simple MUL false
+    else if c =? 47 then                                               (* '/' *)
+      if ch s1 =? 47 then
+        if ins s1 then
+          Ok (mkRes COMMA offset true, mkSt 47 offset (offset + 1) false (qs s1) (errs s1))
+        else
+          s2 <- scan_comment s1 ;;
+          if negb scan_comments then scan_rec (set_ins s2 false)     (* goto scanAgain *)
+          else finish COMMENT offset false s2
+      else simple QUO false
+    else if c =? 60 then                                               (* '<' *)
+      if ch s1 =? 45 then s2 <- next s1 ;; finish ARROW offset false s2
+      else '(t, s2) <- op2 LSS LEQ s1 ;; finish t offset false s2
+    else if c =? 62 then '(t, s2) <- op2 GTR GEQ s1 ;; finish t offset false s2
+    else if c =? 61 then
+      if ch s1 =? 126 then s2 <- next s1 ;; finish MAT offset false s2
+      else '(t, s2) <- op2 BIND EQL s1 ;; finish t offset false s2
+    else if c =? 33 then
+      if ch s1 =? 126 then s2 <- next s1 ;; finish NMAT offset false s2
+      else '(t, s2) <- op2 NOT NEQ s1 ;; finish t offset false s2
+    else if c =? 38 then
+      if ch s1 =? 38 then s2 <- next s1 ;; finish LAND offset false s2 else simple AND false
+    else if c =? 124 then
+      if ch s1 =? 124 then s2 <- next s1 ;; finish LOR offset false s2 else simple OR false
+    else
+      finish ILLEGAL offset (ins s1) (errf_if (negb (c =? bom)) s1).
+
+  Definition scan_body (scan_rec : st -> outcome (res * st)) (attr_rec : tok -> st -> outcome st)
+             (s : st) : outcome (res * st) :=
       s0 <- skip_ws lf s ;;
       let offset := off s0 in
       let c := ch s0 in
-      (* scanAttributeTokens(close) *)
-      let default_case (nh c : Z) (sd : st) : outcome (res * st) :=
-        s1 <- next sd ;;      (* always make progress *)
-        let simple (t : tok) (ie : bool) := finish t offset ie s1 in
-        let quoted (c nh : Z) (s2 : st) :=
-          '(t, s3) <- scan_quoted c nh s2 ;; finish t offset true s3 in
-        if c =? -1 then
-          if ins s1 then Ok (mkRes COMMA offset true, set_ins s1 false)
-          else simple EOF false
-        else if c =? 95 then                                               (* '_' *)
-          b <- (if ch s1 =? 124 then
-                  if rd s1 <? len then x <- byte_at (rd s1) ;; Ok (x =? 95) else Ok false
-                else Ok false) ;;
-          if b then s2 <- next s1 ;; s3 <- next s2 ;; finish BOTTOM offset true s3
-          else
-            '(lit, s2) <- scan_field_identifier s1 ;;
-            if bytes_eqb lit [95%N] && (ch s2 =? 35) then
-              s3 <- next s2 ;;
-              '(_, s4) <- scan_identifier s3 ;;
-              finish ILLEGAL offset true (errf s4)
-            else finish IDENT offset true s2
-        else if c =? 10 then                                               (* '\n' *)
-          s2 <- skip_ws lf (set_ins s1 false) ;;
-          if (ch s2 =? 44) || (ch s2 =? 58) then scan f' s2
-          else Ok (mkRes COMMA offset true, s2)
-        else if c =? 35 then                                               (* '#' *)
-          '(nh', s2) <- hash_loop lf (nh + 1) s1 ;;
-          let c' := ch s2 in
-          if negb (c' =? 39) && negb (c' =? 34) then finish ILLEGAL offset false s2
-          else s3 <- next s2 ;; quoted c' nh' s3
-        else if (c =? 34) || (c =? 39) then quoted c nh s1
-        else if c =? 64 then                                               (* '@': scanAttribute *)
-          let offs := off s1 - 1 in
-          '(_, s2) <- scan_identifier s1 ;;
-          '(r, s3) <- scan f' s2 ;;
-          s4 <- (if tok_beq (r_tok r) LPAREN then attr_tokens f' RPAREN s3 else Ok (errf s3)) ;;
-          _ <- slice offs (off s4) ;;
-          finish ATTRIBUTE offset true s4
-        else if c =? 58 then simple COLON false
-        else if c =? 59 then simple SEMICOLON true
-        else if c =? 63 then simple OPTION true
-        else if c =? 126 then simple TILDE false
-        else if c =? 46 then                                               (* '.' *)
-          if (48 <=? ch s1) && (ch s1 <=? 57) then
-            '(t, s2) <- scan_number true s1 ;; finish t offset true s2
-          else if ch s1 =? 46 then
-            s2 <- next s1 ;;
-            if ch s2 =? 46 then s3 <- next s2 ;; finish ELLIPSIS offset true s3
-            else finish ILLEGAL offset false (errf s2)
-          else simple PERIOD false
-        else if c =? 44 then simple COMMA false
-        else if c =? 40 then simple LPAREN false
-        else if c =? 41 then simple RPAREN true
-        else if c =? 91 then simple LBRACK false
-        else if c =? 93 then simple RBRACK true
-        else if c =? 123 then simple LBRACE false
-        else if c =? 125 then simple RBRACE true
-        else if c =? 43 then simple ADD false
-        else if c =? 45 then simple SUB false
-        else if c =? 42 then simple MUL false
-        else if c =? 47 then                                               (* '/' *)
-          if ch s1 =? 47 then
-            if ins s1 then
-              Ok (mkRes COMMA offset true, mkSt 47 offset (offset + 1) false (qs s1) (errs s1))
-            else
-              s2 <- scan_comment s1 ;;
-              if negb scan_comments then scan f' (set_ins s2 false)     (* goto scanAgain *)
-              else finish COMMENT offset false s2
-          else simple QUO false
-        else if c =? 60 then                                               (* '<' *)
-          if ch s1 =? 45 then s2 <- next s1 ;; finish ARROW offset false s2
-          else '(t, s2) <- op2 LSS LEQ s1 ;; finish t offset false s2
-        else if c =? 62 then '(t, s2) <- op2 GTR GEQ s1 ;; finish t offset false s2
-        else if c =? 61 then
-          if ch s1 =? 126 then s2 <- next s1 ;; finish MAT offset false s2
-          else '(t, s2) <- op2 BIND EQL s1 ;; finish t offset false s2
-        else if c =? 33 then
-          if ch s1 =? 126 then s2 <- next s1 ;; finish NMAT offset false s2
-          else '(t, s2) <- op2 NOT NEQ s1 ;; finish t offset false s2
-        else if c =? 38 then
-          if ch s1 =? 38 then s2 <- next s1 ;; finish LAND offset false s2 else simple AND false
-        else if c =? 124 then
-          if ch s1 =? 124 then s2 <- next s1 ;; finish LOR offset false s2 else simple OR false
-        else
-          finish ILLEGAL offset (ins s1) (errf_if (negb (c =? bom)) s1)
-      in
       if (48 <=? c) && (c <=? 57) then
         '(t, s1) <- scan_number false s0 ;; finish t offset true s1
       else if is_letter c || (c =? 36) || (c =? 35) then
@@ -563,15 +566,13 @@ Section Scanner.
         if 1 <? Z.of_nat (length lit) then finish (lookup lit) offset true s1
         else if negb (c =? 35) || (negb (ch s1 =? 39) && negb (ch s1 =? 34) && negb (ch s1 =? 35))
         then finish IDENT offset true s1
-        else default_case 1 (ch s1) s1
-      else default_case 0 c s0
-    end
+        else default_case scan_rec attr_rec offset 1 (ch s1) s1
+      else default_case scan_rec attr_rec offset 0 c s0.
 
-  with attr_tokens (f : nat) (close : tok) (s : st) : outcome st :=
-    match f with
-    | O => Fuel
-    | S f' =>
-      '(r, s1) <- scan f' s ;;
+  (* scanAttributeTokens(close) *)
+  Definition attr_body (scan_rec : st -> outcome (res * st)) (attr_rec : tok -> st -> outcome st)
+             (close : tok) (s : st) : outcome st :=
+      '(r, s1) <- scan_rec s ;;
       let t := r_tok r in
       if tok_beq t close then Ok s1
       else match t with
@@ -579,13 +580,23 @@ Section Scanner.
       | INTERPOLATION =>
         '(_, s2) <- pop_interp (errf s1) ;;
         s3 <- recover_paren lf 1 s2 ;;
-        attr_tokens f' close s3
-      | LPAREN => s2 <- attr_tokens f' RPAREN s1 ;; attr_tokens f' close s2
-      | LBRACE => s2 <- attr_tokens f' RBRACE s1 ;; attr_tokens f' close s2
-      | LBRACK => s2 <- attr_tokens f' RBRACK s1 ;; attr_tokens f' close s2
-      | RPAREN | RBRACK | RBRACE => attr_tokens f' close (errf s1)
-      | _ => attr_tokens f' close s1
-      end
+        attr_rec close s3
+      | LPAREN => s2 <- attr_rec RPAREN s1 ;; attr_rec close s2
+      | LBRACE => s2 <- attr_rec RBRACE s1 ;; attr_rec close s2
+      | LBRACK => s2 <- attr_rec RBRACK s1 ;; attr_rec close s2
+      | RPAREN | RBRACK | RBRACE => attr_rec close (errf s1)
+      | _ => attr_rec close s1
+      end.
+
+  Fixpoint scan (f : nat) (s : st) : outcome (res * st) :=
+    match f with
+    | O => Fuel
+    | S f' => scan_body (scan f') (attr_tokens f') s
+    end
+  with attr_tokens (f : nat) (close : tok) (s : st) : outcome st :=
+    match f with
+    | O => Fuel
+    | S f' => attr_body (scan f') (attr_tokens f') close s
     end.
 
   (* fuel sufficient for one Scan call from any state (ScanProofs.scan_fuel_enough) *)
